@@ -515,9 +515,42 @@ def build_robot(layout, H, opts):
             c2: CompSM
             c3: CompC
         comps = ["c1", "c2", "c3"]
+    elif layout == "R6":
+        # components without (some of) the optional hooks declared before the ones that have them
+        class CompD:
+            NAME = "c4"
+
+            def __init__(self):
+                H.log.add("ctor", "c4")
+
+            def on_disable(self):
+                H.callback("c4.on_disable", "c4")
+
+            def execute(self):
+                H.callback("c4.execute", "c4")
+
+        class CompE:
+            NAME = "c5"
+
+            def __init__(self):
+                H.log.add("ctor", "c5")
+
+            def on_enable(self):
+                H.callback("c5.on_enable", "c5")
+
+            def execute(self):
+                H.callback("c5.execute", "c5")
+
+        class Robot(RobotBase0):
+            c3: CompC
+            c4: CompD
+            c5: CompE
+            c1: CompA
+        comps = ["c3", "c4", "c5", "c1"]
     else:
         raise ValueError(layout)
-    hooks = {"c1": {"setup", "on_enable", "on_disable"}, "c2": {"setup", "on_enable", "on_disable"}, "c3": set()}
+    hooks = {"c1": {"setup", "on_enable", "on_disable"}, "c2": {"setup", "on_enable", "on_disable"}, "c3": set(),
+             "c4": {"on_disable"}, "c5": {"on_enable"}}
     return Robot, comps, hooks
 
 
